@@ -217,6 +217,32 @@ FIT_TABLES: List[Tuple[str, str, List[Tuple[Any, ...]], Dict[str, Any], Optional
 ]
 
 
+def cif_table(repo, rows: List[Dict[str, Any]], labels: Optional[List[int]] = None):
+    """The mmCIF table of these atom_site rows *as the current parse_cif_atoms builds it* (interpreted, see checks/c08e.py:V2CifReader),
+    so that what is fitted has the column types the reader really produces (author numbers and ids as text categories, label numbers
+    and models as nullable integers, ...).  When the reader is not evaluable: the typing of the pinned reader, by hand."""
+    from sa.frame import Index, frame_from_rows
+
+    fr = None
+    if rows:
+        try:
+            from checks.c08e import V2CifReader
+
+            def txt(v):
+                return "?" if v is None else (f"{v:.3f}" if isinstance(v, float) else str(v))
+
+            fr = V2CifReader(repo).read([{k: txt(v) for k, v in r.items()} for r in rows], "text")
+            if len(fr.index) != len(rows):
+                fr = None
+        except Exception:
+            fr = None
+    if fr is None:
+        fr = frame_from_rows(rows, "mmCIF", categories=CIF_CATEGORY, ints=CIF_INT)
+    if labels is not None:
+        fr.index = Index(list(labels))
+    return fr
+
+
 def fit_env(repo) -> Dict[str, Any]:
     from sa.frame import pd_namespace
 
@@ -273,7 +299,7 @@ def check_fit_eval(chk, fi) -> Optional[Set[str]]:
         env = fit_env(repo)
         for tag, kind, spec_rows, kw, labels in FIT_TABLES:
             rows = cif_rows(spec_rows, **kw)
-            df = frame_from_rows(rows, "mmCIF", categories=CIF_CATEGORY, ints=CIF_INT, index=labels)
+            df = cif_table(repo, rows, labels)
             before = _snapshot(df)
             call = func_callable(repo, M, fi.node, env, max_steps=60000)
             try:
@@ -368,7 +394,7 @@ def check_fit_eval(chk, fi) -> Optional[Set[str]]:
 
                 df = frame_from_rows([_row("PDB", k, 1, "A") for k in range(3)], "PDB", categories=["record_type", "name", "altLoc", "resName", "chainID", "iCode", "element", "charge"], ints=["serial", "resSeq", "model"])
             else:
-                df = frame_from_rows(cif_rows([("A", 1, None), ("A", 2, "A"), ("B", 9999, None)], first_id=99997), "mmCIF", categories=CIF_CATEGORY, ints=CIF_INT)
+                df = cif_table(repo, cif_rows([("A", 1, None), ("A", 2, "A"), ("B", 9999, None)], first_id=99997))
             before = _snapshot(df)
             call = func_callable(repo, M, fi.node, env, max_steps=60000)
             try:
@@ -461,7 +487,7 @@ def check_feasibility_eval(chk, fi) -> bool:
         env = fit_env(repo)
         for tag, spec_rows in FEASIBILITY_TABLES:
             rows = cif_rows(spec_rows)
-            df = frame_from_rows(rows, "mmCIF", categories=CIF_CATEGORY, ints=CIF_INT)
+            df = cif_table(repo, rows)
             chains: Dict[str, set] = {}
             for ch, num, ic in spec_rows:
                 chains.setdefault(ch, set()).add((num, ic))
